@@ -302,6 +302,29 @@ def run(chk):
   chk.ob('C04-R2', pair_ok, None, 'both the argument name and its value enter the key',
          'only names (or only values) of the bindings are part of the key: '
          'F(A: B) and F(A: C) share a result', fi=ck.fi)
+  # ... and of EXACTLY the relevant ones: the only condition under which a
+  # binding is left out of the key is that the functor does not depend on it
+  extra = None
+  n_filters = 0
+  for x in walk_local(ck.fi.node):
+    if isinstance(x, (ast.GeneratorExp, ast.ListComp, ast.DictComp, ast.SetComp)):
+      for g in x.generators:
+        for cond in g.ifs:
+          n_filters += 1
+          t_ = ck.expand(cond, 3)
+          relevance = isinstance(t_, ast.Compare) and len(t_.ops) == 1 and \
+              isinstance(t_.ops[0], ast.In) and any(
+                  isinstance(c, ast.Call) and call_tail(c) == 'ArgsOf' and c.args and
+                  dotted(c.args[0]) == 'functor' for c in ast.walk(t_.comparators[0]))
+          if not relevance:
+            extra = cond
+  if not n_filters:
+    raise AnalysisError('CallKey: the relevance filter of the bindings is not recognised')
+  chk.ob('C04-R2', extra is None, None,
+         'a binding is left out of the key only when the functor does not depend on it',
+         'bindings are also dropped from the key under `%s`: two applications that '
+         'differ only in such a binding share one instantiation'
+         % (norm(extra, 60) if extra is not None else ''), fi=ck.fi, node=extra)
   keyname = None
   for x in walk_local(v.fi.node):
     if isinstance(x, ast.Assign) and isinstance(x.value, ast.Call) and \
